@@ -77,6 +77,9 @@ class Gen:
         return ("fp", self.r.choice(["1.5", "0.25", "-3.125", "-0.5", "12.0", "0.003", "63.996"]))
 
     def string(self):
+        if getattr(self, "in_macro", False) and self.vars_in_scope and self.r.random() < 0.12:
+            # text that happens to be the name of a macro parameter: a string is a string, it is not substituted
+            return self.r.choice(self.vars_in_scope)
         if not self.c.rich_params:
             return self.r.choice(["hello", "a b", ""])
         return self.r.choice([
@@ -86,6 +89,10 @@ class Gen:
 
     def pos(self):
         self.posn += 1
+        if getattr(self, "in_macro", False) and self.vars_in_scope and self.r.random() < 0.12 and not getattr(self, "_pos_named_like_param", False):
+            self._pos_named_like_param = True  # (mark names are unique per program, so only once)
+            return ("pos", self.r.choice(self.vars_in_scope), self.r.choice([0, 0, 2]), self.r.choice([0, 0, 2]),
+                    self.r.choice([0, 1, 20, 255, -3]), self.r.choice([0, 5, 47, -1]))
         return ("pos", f"m{self.posn}", self.r.choice([0, 0, 2]), self.r.choice([0, 0, 2]),
                 self.r.choice([0, 1, 20, 255, -3]), self.r.choice([0, 5, 47, -1]))
 
